@@ -108,11 +108,15 @@ def scan : List Char → St → List Piece
   | [], st => flush st
   | c :: cs, st => (step c st).1 ++ scan cs (step c st).2
 
-def natChars (n : Nat) : List Char := (toString n).toList
+/-- decimal digits of `n` (`str(n)`) -/
+def natChars (n : Nat) : List Char := Nat.toDigits 10 n
+
+/-- the characters of `solved_values(` -/
+def svOpen : List Char := ['s', 'o', 'l', 'v', 'e', 'd', '_', 'v', 'a', 'l', 'u', 'e', 's', '(']
 
 /-- `f"solved_values({number}, {idx.replace('t', 'index')})"`. -/
 def refText (n : Nat) (idx : List Char) : List Char :=
-  "solved_values(".toList ++ natChars n ++ ", ".toList ++ replaceT idx ++ [')']
+  svOpen ++ natChars n ++ [',', ' '] ++ replaceT idx ++ [')']
 
 /-- Replace every match by its `solved_values(…)` text (`none` = KeyError on an unknown name). -/
 def renderPieces (num : String → Option Nat) : List Piece → Option (List Char)
@@ -357,6 +361,27 @@ def denF {α F4 F8} (T : Tower F4 F8) (cell : α → Int → F8) : Expr α → O
   | .fn1 f x => (denF T cell x).bind (fFn1 T f)
   | .fn2 f x y => bind2 (fFn2 T f) (denF T cell x) (denF T cell y)
 
+def FVal.kind {F4 F8} : FVal F4 F8 → Kind
+  | .int _ => .int
+  | .r4 _ => .r4
+  | .r8 _ => .r8
+
+/-- A Fortran value read as the Python value it should equal: integers as ints, reals widened to float64. -/
+def lift {F4 F8} (T : Tower F4 F8) : FVal F4 F8 → PVal F8
+  | .int v => .int v
+  | .r4 x => .flt (T.up x)
+  | .r8 x => .flt x
+
+/-- The variable references of an expression. -/
+def Expr.refs {α} : Expr α → List (α × Int)
+  | .int _ => []
+  | .dec _ _ => []
+  | .var a off => [(a, off)]
+  | .neg x => x.refs
+  | .bin _ x y => x.refs ++ y.refs
+  | .fn1 _ x => x.refs
+  | .fn2 _ x y => x.refs ++ y.refs
+
 /-! ### `KindSafe`: the fragment on which the two languages provably agree -/
 
 /-- Static Fortran kind of an expression. -/
@@ -440,6 +465,21 @@ def kindSafe {α} (exact4 : Nat → Nat → Bool) : Expr α → Bool
      | .r4, .r4 => false
      | _, _ => true)
 
+/-- `n` is a power of two. -/
+def isPow2 (n : Nat) : Bool := n != 0 && Nat.land n (n - 1) == 0
+
+/-- `n` with its factors of two removed (for `n < 2^200`). -/
+def oddPart (n : Nat) : Nat := n / Nat.gcd n (2 ^ 200)
+
+def decNum (m e : Nat) : Nat := m / Nat.gcd m (10 ^ e)
+def decDen (m e : Nat) : Nat := 10 ^ e / Nat.gcd m (10 ^ e)
+
+/-- The decimal literal `m·10⁻ᵉ` is a binary32 number: in lowest terms the denominator is a power of two, the
+    numerator has at most 24 significant bits, and both are small enough for the normal exponent range. -/
+def exact4Std (m e : Nat) : Bool :=
+  m == 0 || (isPow2 (decDen m e) && decide (oddPart (decNum m e) < 2 ^ 24) &&
+             decide (decDen m e ≤ 2 ^ 64) && decide (decNum m e < 2 ^ 64))
+
 /-! ### Storage shared by both engines: `self.values` as a column-major `nrows × ncols` block -/
 
 structure Mat (F : Type) where
@@ -482,15 +522,32 @@ def fBody {F4 F8} (T : Tower F4 F8) : Prog → Mat F8 → Int → Mat F8
     | some v => fBody T rest (s.fset r index (v.to8 T)) index
     | none => fBody T rest s index
 
+/-- Every `self._x[t + off]` read by the expression is inside the span (otherwise NumPy raises IndexError). -/
+def refsOk {α} (n : Nat) (t : Int) : Expr α → Bool
+  | .int _ => true
+  | .dec _ _ => true
+  | .var _ off => (pyIndex n (t + off)).isSome
+  | .neg x => refsOk n t x
+  | .bin _ x y => refsOk n t x && refsOk n t y
+  | .fn1 _ x => refsOk n t x
+  | .fn2 _ x y => refsOk n t x && refsOk n t y
+
+def Mat.pySetD {F} (s : Mat F) (row0 : Nat) (i : Int) (v : F) : Mat F :=
+  match s.pySet row0 i v with
+  | some s' => s'
+  | none => s
+
+/-- Value stored by one generated Python statement. -/
+def pRhs {F} (o : RealOps F) (s : Mat F) (t : Int) (e : Expr Nat) : F :=
+  (denP o (fun a off => (s.pyGet (o.ofInt 0) (a - 1) (t + off)).getD (o.ofInt 0)) e).toF o
+
 /-- The generated Python `_evaluate(t)`: `self._<lhs>[t] = <rhs>` in order; rows are 1-based numbers here, so the
-    Python row is `r - 1`.  `none` = IndexError. -/
-def pBody {F} (o : RealOps F) : Prog → Mat F → Int → Option (Mat F)
-  | [], s, _ => some s
+    Python row is `r - 1`.  Returns the store and whether IndexError was raised (stores made before it survive). -/
+def pBody {F} (o : RealOps F) : Prog → Mat F → Int → Mat F × Bool
+  | [], s, _ => (s, false)
   | (r, e) :: rest, s, t =>
-    match s.pySet (r - 1) t
-        ((denP o (fun a off => (s.pyGet (o.ofInt 0) (a - 1) (t + off)).getD (o.ofInt 0)) e).toF o) with
-    | some s' => pBody o rest s' t
-    | none => none
+    if refsOk s.ncols t e && (pyIndex s.ncols t).isSome then pBody o rest (s.pySetD (r - 1) t (pRhs o s t e)) t
+    else (s, true)
 
 /-! ## (c) FORTRAN_TEMPLATE: `evaluate`, `solve_t`, `solve` -/
 
@@ -659,6 +716,7 @@ inductive WResult where
   | solutionError
   | nonConvergence
   | fortranEngineError
+  | keyError
   deriving DecidableEq, Repr
 
 /-- What the engine is handed plus what the wrapper reads itself on the Python side. -/
@@ -754,6 +812,18 @@ def wSolve {σ V} (W : Wrapped σ V) (o : Opts) (ps : List Nat) (w : World σ) :
     | (w', none, fs) => (w', .ok ps fs)
     | (w', some r, _) => (w', .err r)
 
+/-- `FortranEngine.solve(start=, end=, **opts)`: the checks and period resolution before the engine call. -/
+def wSolveFull {σ V} (W : Wrapped σ V) (o : Opts) (start stop : Option Loc) (w : World σ) :
+    World σ × WSolveResult :=
+  if o.minIter > o.maxIter then (w, .err .valueError)
+  else if start = some .other ∨ start = some .missing then (w, .err .keyError)
+  else if stop = some .other ∨ stop = some .missing then (w, .err .keyError)
+  else
+    match resolveBound start (if W.lags < W.ncols then some W.lags else none),
+          resolveBound stop (if W.leads < W.ncols then some (W.ncols - 1 - W.leads) else none) with
+    | .ok s, .ok e => wSolve W o (periodRange s e) w
+    | _, _ => (w, .err .indexError)
+
 /-! ### The Python class seen through M1, for comparison -/
 
 /-- The generated Python class over the same storage: passes never raise, hooks are `pass`. -/
@@ -775,5 +845,61 @@ def ofResult : Result → WResult
   | .solutionError _ => .solutionError
   | .nonConvergence => .nonConvergence
   | .badErrorsArg => .valueError
+
+/-! ## The engines of one numbered program over the shared storage -/
+
+def closeVec {F} (o : RealOps F) (tol : F) (cur prev : List F) : Bool :=
+  (cur.zip prev).all fun cp => o.lt (o.abs (o.sub cp.1 cp.2)) tol
+
+def finiteVec {F} (o : RealOps F) (v : List F) : Bool := v.all o.isFinite
+
+/-- One model instance: the numbered equations, the `endogenous` array, the convergence rows **as the wrapper
+    passes them** (`[self.names.index(x) for x in self.check]`, 0-based), and the sizes. -/
+structure Spec (F : Type) where
+  prog : Prog
+  endo : List Nat
+  conv : List Nat
+  ncols : Nat
+  lags : Nat
+  leads : Nat
+  tol : F
+
+def zeroRows {F} (o : RealOps F) (rows : List Nat) (index : Nat) (s : Mat F) : Mat F :=
+  rows.foldl (fun acc (r : Nat) =>
+    if o.isFinite (acc.fget (o.ofInt 0) r index) then acc else acc.fset r index (o.ofInt 0)) s
+
+def copyRows {F} (g : F) (rows : List Nat) (dst src : Nat) (s : Mat F) : Mat F :=
+  rows.foldl (fun acc (r : Nat) => acc.fset r dst (s.fget g r src)) s
+
+/-- The compiled module plus the wrapper's own Python-side reads.  `check` reads the passed row numbers 1-based,
+    exactly as `solved_values(convergence_variables, index)` does; `pyCheck` reads the variables themselves. -/
+def specWrapped {F4 F8} (T : Tower F4 F8) (S : Spec F8) : Wrapped (Mat F8) (List F8) where
+  ncols := S.ncols
+  lags := S.lags
+  leads := S.leads
+  check u index := S.conv.map fun r => u.fget (T.o8.ofInt 0) (r : Nat) index
+  allFinite := finiteVec T.o8
+  close := closeVec T.o8 S.tol
+  endoFinite u index := (S.endo.map fun r => u.fget (T.o8.ofInt 0) (r : Nat) index).all T.o8.isFinite
+  zeroEndo u index := zeroRows T.o8 S.endo index u
+  copyEndo u dst src := copyRows (T.o8.ofInt 0) S.endo dst src u
+  body u index := fBody T S.prog u index
+  pyCheck u index := S.conv.map fun r => u.fget (T.o8.ofInt 0) ((r : Nat) + 1 : Nat) index
+
+/-- `self._x[t] = self._x[t + offset]` for the endogenous rows, with Python's index semantics. -/
+def pyCopy {F} (g : F) (rows : List Nat) (t off : Int) (s : Mat F) : Mat F :=
+  rows.foldl (fun acc r => acc.pySetD (r - 1) t ((s.pyGet g (r - 1) (t + off)).getD g)) s
+
+/-- The generated Python class as an M1 interpretation (periods addressed with Python's index semantics, so an
+    infeasible period wraps around or raises IndexError as NumPy does). -/
+def pyInterp {F} (o : RealOps F) (S : Spec F) : Interp (Mat F) (List F) where
+  check u t := S.conv.map fun r => (u.pyGet (o.ofInt 0) r t).getD (o.ofInt 0)
+  allFinite := finiteVec o
+  close := closeVec o S.tol
+  zeroNF v := v.map fun x => if o.isFinite x then x else o.ofInt 0
+  copyOffset u t off := pyCopy (o.ofInt 0) S.endo t off u
+  before _ u _ := (u, false)
+  eval _ u t _ := pBody o S.prog u t
+  after _ u _ _ := (u, false)
 
 end Fsic.Fortran
